@@ -17,7 +17,7 @@ changed=/verif/.build-mut/${STREAM:-s0}/hook/opt/wild
 base=/verif/.build/hook/opt/wild
 if [ -f $dst/demo.sh ] && [ "${PHASE:-AB}" != "B" ]; then
   chmod +x $dst/demo.sh
-  for i in 1 2; do (cd $dst && timeout 1800 ./demo.sh $base) >>$log 2>&1; echo "demo unchanged run$i rc=$?" >>$log; done
+  for i in $(seq 1 ${DEMO_RUNS:-1}); do (cd $dst && timeout 2400 ./demo.sh $base) >>$log 2>&1; echo "demo unchanged run$i rc=$?" >>$log; done
   (cd $dst && timeout 1800 ./demo.sh $changed) >>$log 2>&1; echo "demo changed rc=$?" >>$log
 fi
 if [ "${PHASE:-AB}" = "A" ]; then SKIP_SUITE=1; fi
